@@ -39,7 +39,7 @@ Theorem c18_select :
   forall now s c dbi a oracle cn,
   zlookup c (s_conns s) = Some cn ->
   let s1 := lazy_expire now s dbi (bs "SELECT") [FBulk (bs "SELECT"); FBulk a] in
-  let s0 := if mem_name (bs "SELECT") write_commands then log_aof_in s1 dbi [FBulk (bs "SELECT"); FBulk a] else s1 in
+  let s0 := if logs_before (bs "SELECT") [FBulk (bs "SELECT"); FBulk a] then log_aof_in s1 dbi [FBulk (bs "SELECT"); FBulk a] else s1 in
   normal_command now s c dbi [FBulk (bs "SELECT"); FBulk a] oracle =
     match parse_usize a with
     | Some n => if 16 <=? n then (r_err, s0)
